@@ -28,16 +28,16 @@ var quotedForms = []struct {
 	re       *regexp.Regexp
 	orig, to int
 }{
-	{regexp.MustCompile("^replace `(.*)` with `(.*)`$"), 1, 2},
-	{regexp.MustCompile("^can simplify `(.*)` to `(.*)`$"), 1, 2},
-	{regexp.MustCompile("^could simplify (.*) to (.*)$"), 1, 2},
-	{regexp.MustCompile("^consider to change order in expression to (.*)$"), 0, 1},
-	{regexp.MustCompile("^can re-write as `(.*)`$"), 0, 1},
-	{regexp.MustCompile("^can rewrite as `(.*)`$"), 0, 1},
-	{regexp.MustCompile("^suggestion: (.*)$"), 0, 1},
-	{regexp.MustCompile("^use (.*) instead of (.*)$"), 2, 1},
-	{regexp.MustCompile("^consider replacing (.*) with (.*)$"), 1, 2},
-	{regexp.MustCompile(`^(len\(.*\) \S+ \d+) can be (len\(.*)$`), 1, 2},
+	{regexp.MustCompile("(?s)^replace `(.*)` with `(.*)`$"), 1, 2},
+	{regexp.MustCompile("(?s)^can simplify `(.*)` to `(.*)`$"), 1, 2},
+	{regexp.MustCompile("(?s)^could simplify (.*) to (.*)$"), 1, 2},
+	{regexp.MustCompile("(?s)^consider to change order in expression to (.*)$"), 0, 1},
+	{regexp.MustCompile("(?s)^can re-write as `(.*)`$"), 0, 1},
+	{regexp.MustCompile("(?s)^can rewrite as `(.*)`$"), 0, 1},
+	{regexp.MustCompile("(?s)^suggestion: (.*)$"), 0, 1},
+	{regexp.MustCompile("(?s)^use (.*) instead of (.*)$"), 2, 1},
+	{regexp.MustCompile("(?s)^consider replacing (.*) with (.*)$"), 1, 2},
+	{regexp.MustCompile(`(?s)^(len\(.*\) \S+ \d+) can be (len\(.*)$`), 1, 2},
 }
 
 type suggestion struct {
